@@ -3,7 +3,7 @@
 //   mc_gen plans [--tier quick|thorough]
 // each line: {"label","type","tx","txin","sv","scripts":[hex..],"p2sh":bool,"commit_steps":n,"control":hex,"stack":[hex..],"valid":bool}
 // The plan lists, in execution order, the scripts the debugger is specified to run for that input
-// (legacy: scriptSig, scriptPubKey and - when p2sh - the redeem script taken from the last scriptSig push;
+// (legacy: scriptSig, scriptPubKey and - when p2sh - the redeem script = the item the scriptSig leaves on top of the stack;
 //  segwit: the witness script / implied P2WPKH script; taproot key path: "<program> OP_CHECKSIG";
 //  tapscript: commit_steps commitment micro-steps followed by the leaf script).
 #include "sessioncmp.hpp"
@@ -19,9 +19,10 @@ static void emit(const std::string& label, const Tx& fund, const Tx& tx, uint32_
     std::vector<TxOut> spent(tx.vin.size()); spent[P.nin] = fund.vout[tx.vin[P.nin].prev_n];
     bool valid = verify_input(tx, P.nin, spent, flags) == Err::OK;
     std::vector<std::string> scripts; for (auto& s : P.scripts) scripts.push_back(hex(s));
-    if (P.p2sh) {   // redeem script = last push of the scriptSig
-        bytes last; for (size_t pc = 0; pc < P.scripts[0].size();) { Op o = decode_op(P.scripts[0], pc); if (!o.ok) break; last = o.data; pc = o.end; }
-        scripts.push_back(hex(last));
+    if (P.p2sh) {   // redeem script = the item the scriptSig leaves on top of the stack (not "the data of its last push": OP_1NEGATE and OP_1..OP_16 push a byte too)
+        Machine m; m.sv = SigVer::BASE; m.flags = flags; m.script = P.scripts[0];
+        while (!m.at_end()) if (m.step() != Err::OK) break;
+        scripts.push_back(hex(m.stack.empty() ? bytes{} : m.stack.back()));
     }
     bytes control; if (P.sv == SigVer::TAPSCRIPT) { auto w = tx.vin[P.nin].witness; if (P.annex_present) w.pop_back(); control = w.back(); }
     std::cout << JObj().put("label", label).put("type", P.type).put("tx", hex(ser_tx(tx))).put("txin", hex(ser_tx(fund))).put("sv", int(P.sv)).put("scripts", J::strs(scripts)).put("p2sh", P.p2sh)
@@ -59,6 +60,18 @@ int main(int argc, char** argv) {
             gen::Shape sh; sh.nin = 2; sh.pos = 1; sh.fund_vout = 1; sh.nout = 2;
             gen::Spend S = gen::make_spend("p2pk", sh);
             S.fund.vout[1].spk = unhex(b.spk); S.tx.vin[1].prev_hash = txid(S.fund); S.tx.vin[1].script_sig = unhex(b.sig);
+            emit(std::string("bare: ") + b.name, S.fund, S.tx, F_STANDARD);
+        }
+    }
+    // P2SH outputs whose one-byte redeem script reaches the stack through a small-number opcode of the scriptSig (OP_1NEGATE pushes 0x81 =
+    // OP_RIGHT) or through an ordinary push (control): the listing must show the redeem script that will run
+    {
+        struct B { const char* name; const char* sig; uint8_t redeem; };
+        for (B b : {B{"P2SH, redeem script OP_NOP pushed as data", "510161", 0x61}, B{"P2SH, redeem script 0x81 pushed by OP_1NEGATE", "02aabb514f", 0x81}}) {
+            gen::Shape sh; sh.nin = 2; sh.pos = 1; sh.fund_vout = 1; sh.nout = 2;
+            gen::Spend S = gen::make_spend("p2pk", sh);
+            bytes h = hash160(bytes{b.redeem}); bytes spk{0xa9, 0x14}; spk.insert(spk.end(), h.begin(), h.end()); spk.push_back(0x87);
+            S.fund.vout[1].spk = spk; S.tx.vin[1].prev_hash = txid(S.fund); S.tx.vin[1].script_sig = unhex(b.sig);
             emit(std::string("bare: ") + b.name, S.fund, S.tx, F_STANDARD);
         }
     }
